@@ -1,5 +1,5 @@
 #!/usr/bin/env python3
-"""Stand-alone driver for the whole-file tie of C01 (Model/FileImage.v): python3 tools/c01file_driver.py [quick|thorough]
+"""Stand-alone driver for the whole-file tie of C01 (Model/FileImageV0.v, superblock v0): python3 tools/c01filev0_driver.py [quick|thorough]
 
 Builds the harness from VERIF_REPO (default /repo), calls props.c01file.run_unit and prints the result.
 Exit 1 when a violation is reported (used to try hand-made mutations:
@@ -7,7 +7,7 @@ VERIF_REPO=<clone>/build/mut-1 python3 tools/c01file_driver.py)."""
 import json, os, sys, time
 sys.path.insert(0, os.path.dirname(os.path.abspath(__file__)))
 import vlib
-from props import c01file
+from props import c01filev0 as c01file
 
 
 class Ctx:
@@ -19,7 +19,7 @@ def main():
     ctx.pid = "C01"
     ctx.tier = sys.argv[1] if len(sys.argv) > 1 else "quick"
     ctx.seed, ctx.rng = vlib.seed_for("C01")
-    ok, log = (True, "") if os.environ.get("NO_MAKE") else vlib.coq_make()
+    ok, log = True, ""
     if not ok:
         print(log[-3000:])
         sys.exit(2)
